@@ -97,4 +97,14 @@ theorem other_program_irrelevant (builtin : List RegEntry) (reg : Registry) (lib
       simp [hall e List.mem_cons_self]
   exact this _ reg hout
 
+/-- **a request for no libraries is offered no commands** - whatever is registered, whatever was loaded before (an explicit empty request is not
+"the default request") -/
+theorem empty_request_offers_nothing (builtin : List RegEntry) (reg : Registry) :
+    lookup (loadLibs builtin reg []) [] = .ok [] := by
+  have h : ∀ r : Registry, r.filter (inLibs []) = [] := by
+    intro r; simp [inLibs]
+  unfold lookup
+  simp only [h]
+  rfl
+
 end MPilot.C19
